@@ -21,10 +21,11 @@ N_LOOPS = 2 + 2 * N_SITES
 _E_SITES = {0, 2, 4}
 
 # all row bookkeeping is kept in LINEAR form: a row start `l` is usable iff l + width <= len
-MAXLEN = "0x3fff_ffff_ffff_ffff"  # (isize::MAX / 2) on the declared 64-bit target
+# MAXLEN: a [u16] spans at most isize::MAX bytes (see PRE), so that `x + 8` with x <= width <= len cannot overflow
+MAXLEN = "0x3fff_ffff_ffff_ffff"  # isize::MAX / 2 on the declared 64-bit target
 _COMMON = """
         output@.len() == old(output)@.len(),
-        output@.len() <= 0x3fff_ffff_ffff_ffff,
+        output@.len() <= """ + MAXLEN + """,
         x <= width,
         count <= 0xffff,
         input_cursor.pos() > p0,
@@ -33,7 +34,7 @@ _COMMON = """
 _OUTER = """
     invariant
         output@.len() == old(output)@.len(),
-        output@.len() <= 0x3fff_ffff_ffff_ffff,
+        output@.len() <= """ + MAXLEN + """,
         width * h0 <= output@.len(),
         height <= h0,
         x <= width,
